@@ -118,7 +118,9 @@ type slhWorld struct {
 	pref    [][]netip.Prefix // per node preferred ranges (model)
 	stats   map[string]int
 	byz     int
-	statics []map[netip.Addr][]netip.AddrPort // per node: static host -> configured addresses
+	// droppedLH: clients whose lighthouse.hosts no longer lists node 0 (configuration truth, not nebula's view)
+	droppedLH map[int]bool
+	statics   []map[netip.Addr][]netip.AddrPort // per node: static host -> configured addresses
 }
 
 func (w *slhWorld) fail(prop, class, format string, a ...any) {
@@ -208,6 +210,12 @@ func runSLH(rc *sk.RunCtx, focus string) {
 	w.meshWorld = mw
 	n := len(mw.nodes)
 	w.byz = 1 + tp.Choose(n-1)
+	if tp.Chance(1, 4) {
+		// the lighthouse itself misbehaves: what it sends is authorized only for as long as the receiver still
+		// lists it under lighthouse.hosts (reloads drop it, see dropLighthouse)
+		w.byz = 0
+	}
+	w.droppedLH = map[int]bool{}
 	for i, nd := range mw.nodes {
 		st := map[netip.Addr][]netip.AddrPort{}
 		for k, v := range nd.spec.static {
@@ -242,7 +250,7 @@ func runSLH(rc *sk.RunCtx, focus string) {
 	mw.scheduleOperator(nops, 2*time.Second, horizon, []string{"rehandshake", "close", "close-local", "restart", "burst", "stall", "partition"})
 	for k := 0; k < nbyz; k++ {
 		at := 2*time.Second + time.Duration(tp.Choose(int((horizon-2*time.Second)/time.Millisecond)))*time.Millisecond
-		kind := tp.Choose(8)
+		kind := tp.Choose(9)
 		mw.at(at, "slh-byz", func() {
 			switch {
 			case kind < 6:
@@ -251,6 +259,12 @@ func runSLH(rc *sk.RunCtx, focus string) {
 				w.reloadPreferred()
 			case kind == 7:
 				w.roam()
+			case kind == 8:
+				if w.byz == 0 {
+					w.dropLighthouse()
+				} else {
+					w.byzantineMessage()
+				}
 			}
 		})
 	}
@@ -605,6 +619,29 @@ func (w *slhWorld) reloadPreferred() {
 	w.stats["op.reload_preferred_ranges"]++
 }
 
+// dropLighthouse: a reload removes the lighthouse from a client's lighthouse.hosts; from then on nothing that
+// host sends is lighthouse information for this client.
+func (w *slhWorld) dropLighthouse() {
+	i := 1 + w.tp.Choose(len(w.nodes)-1)
+	nd := w.nodes[i]
+	if !nd.alive || w.droppedLH[i] {
+		return
+	}
+	spec := *nd.spec
+	spec.lhHosts = nil
+	spec.extra = map[string]any{}
+	deepMerge(spec.extra, nd.spec.extra)
+	deepMerge(spec.extra, map[string]any{"lighthouse": map[string]any{"hosts": []any{}}})
+	if err := nd.reload(spec.configYAML()); err != nil {
+		w.rc.HarnessError("reload lighthouse.hosts: %v", err)
+		return
+	}
+	nd.spec = &spec
+	w.specs[i] = &spec
+	w.droppedLH[i] = true
+	w.stats["op.reload_drop_lighthouse"]++
+}
+
 // roam: a multi-homed node starts sending from another of its addresses.
 func (w *slhWorld) roam() {
 	i := 1 + w.tp.Choose(len(w.nodes)-1)
@@ -650,9 +687,18 @@ func fakeAddrs(tp *sk.Tape, target *simNode) ([]*V4AddrPort, []*V6AddrPort, []ne
 	var v6 []*V6AddrPort
 	var all []netip.AddrPort
 	k := 1 + tp.Choose(14) // sometimes more than ten
+	// family mix: mixed / IPv6 only / public IPv4 only (a single family is what reaches the per-family cap)
+	family := tp.Choose(4)
 	for i := 0; i < k; i++ {
 		var a netip.AddrPort
-		switch tp.Choose(5) {
+		kind := tp.Choose(5)
+		switch family {
+		case 1:
+			kind = 3
+		case 2:
+			kind = 4
+		}
+		switch kind {
 		case 0: // inside the target's overlay range
 			a = netip.AddrPortFrom(netip.AddrFrom4([4]byte{10, 128, 0, byte(50 + tp.Choose(100))}), 4242)
 		case 1:
@@ -718,6 +764,17 @@ func (w *slhWorld) byzantineMessage() {
 	default:
 		det.VpnAddr = netAddrToProtoAddr(claimed)
 	}
+	if tp.Chance(1, 6) && claimed.Is4() && Z.vpnAddr().Is4() {
+		// both owner fields at once, one naming the sender itself and the other the claimed owner
+		own := Z.vpnAddr().As4()
+		cl := claimed.As4()
+		if tp.Chance(1, 2) {
+			det.OldVpnAddr, det.VpnAddr = binary.BigEndian.Uint32(own[:]), netAddrToProtoAddr(claimed)
+		} else {
+			det.OldVpnAddr, det.VpnAddr = binary.BigEndian.Uint32(cl[:]), netAddrToProtoAddr(Z.vpnAddr())
+		}
+		w.stats["fault.byzantine.both-owner-fields"]++
+	}
 	if tp.Chance(1, 2) {
 		r := w.nodes[tp.Choose(len(w.nodes))].vpnAddr()
 		if v1 {
@@ -761,7 +818,8 @@ func (w *slhWorld) byzantineMessage() {
 	w.stats["fault.byzantine."+typ.String()]++
 	w.pump()
 	isLH := T.f.lightHouse.amLighthouse
-	zIsLHofT := T.f.lightHouse.IsAnyLighthouseAddr(Z.f.myVpnAddrs)
+	// configuration truth: node 0 is the only lighthouse, and a client that dropped it from lighthouse.hosts has none
+	zIsLHofT := Z.idx == 0 && T.idx != 0 && !w.droppedLH[T.idx]
 	before := lhDigest(T)
 	nc := len(T.conn.out)
 	T.recvBatch(sent)
